@@ -26,9 +26,14 @@ class ServiceFault(Exception):
 
     def __init__(self, code: str, message: str, status: int):
         super().__init__(f"An error occurred ({code}) when calling the operation: {message}")
+        # like botocore: ResponseMetadata always carries the HTTP headers; a genuine service error has the x-amzn-*
+        # ones, a page produced by an intermediary (load balancer / front end 502-504) has not
+        gateway = code.isdigit()
+        headers = {"content-type": "text/html", "server": "awselb/2.0", "content-length": "162"} if gateway else \
+            {"x-amzn-requestid": "req-sim", "x-amzn-errortype": code, "content-type": "application/json", "date": "Fri, 15 Jan 2027 08:00:00 GMT"}
         self.response = {
             "Error": {"Code": code, "Message": message},
-            "ResponseMetadata": {"HTTPStatusCode": status, "RequestId": "req-sim"},
+            "ResponseMetadata": {"HTTPStatusCode": status, "RequestId": "" if gateway else "req-sim", "HTTPHeaders": headers, "RetryAttempts": 0},
         }
 
 
@@ -39,6 +44,7 @@ FAULT_CLASSES = {
     "invalid_token": ("InvalidParameterValueException", "Invalid Checkpoint Token: stale", 400, "FAILED"),
     "throttle": ("TooManyRequestsException", "slow down", 429, "FAILED"),
     "server5xx": ("ServiceException", "internal error", 500, "FAILED"),
+    "gateway5xx": ("503", "Service Unavailable", 503, "FAILED"),  # HTML page of an intermediary: no x-amzn-* headers, numeric error code
 }
 
 
